@@ -49,6 +49,20 @@ M = [
   "        expanded = os.path.expanduser(part)\n", "        expanded = part.replace('~', os.path.expanduser('~'))\n"),
  ('C03', 'm15-plan-executes-too', 'rebench/executor.py',
   "            print(cmdline)\n            return True", "            print(cmdline)\n            self._print_execution_plan = False"),
+ ('C03', 'a01-time-p-dropped', 'rebench/interop/time_adapter.py',
+  'return "/usr/bin/time -p %s" % command', 'return "/usr/bin/time %s" % command'),
+ ('C03', 'a02-gtime-probed-on-any-failure', 'rebench/interop/time_adapter.py',
+  "        if formatted_output == 1:\n            try:", "        if formatted_output != 0:\n            try:"),
+ ('C03', 'a03-perf-record-uses-report-args', 'rebench/interop/perf_adapter.py',
+  'return (profiler.command + " " + profiler.record_args + " " +', 'return (profiler.command + " " + profiler.report_args + " " +'),
+ ('C03', 'a04-report-step-cwd-unexpanded', 'rebench/model/profiler.py',
+  "            location = os.path.expanduser(location)", "            pass"),
+ ('C03', 'a05-gtime-never-selected', 'rebench/interop/time_adapter.py',
+  '                    time_bin = "/opt/local/bin/gtime"', '                    pass'),
+ ('C03', 'a06-time-manual-wraps', 'rebench/interop/time_adapter.py',
+  "    def acquire_command(self, run_id):\n        return run_id.cmdline_for_next_invocation()", "    pass"),
+ ('C03', 'a07-report-step-without-env', 'rebench/model/profiler.py',
+  "run(cmdline, run_id.env, cwd=location,", "run(cmdline, {}, cwd=location,"),
  # ---------------------------------------------------------------- C20
  ('C20', 'n01-no-finally', 'rebench/rebench.py',
   "            finally:\n                restore_noise(denoise_result, show_denoise_warnings, self.ui)",
@@ -80,6 +94,26 @@ M = [
   "    if not denoise_result:\n        # likely has failed completely", "    if not denoise_result or not denoise_result.succeeded:\n        # likely has failed completely"),
  ('C20', 'n13-shielding-default-true', 'rebench/denoise_client.py',
   'use_shielding = result.get("shielding", False)', 'use_shielding = result.get("shielding", True)'),
+ ('C20', 'p01-parallel-interrupt-not-handled', 'rebench/executor.py',
+  "        except KeyboardInterrupt:\n            # Only the main thread sees the interrupt.", "        except ZeroDivisionError:\n            # Only the main thread sees the interrupt."),
+ ('C20', 'p02-parallel-interrupt-no-kill', 'rebench/executor.py',
+  "            self._executor.running_processes.kill_all_and_refuse_more()", "            pass"),
+ ('C20', 'p03-parallel-interrupt-no-join', 'rebench/executor.py',
+  "            self._executor.running_processes.kill_all_and_refuse_more()\n            for thread in self._worker_threads:\n                thread.join()\n            raise", "            raise"),
+ ('C20', 'd01-restore-leaves-no-turbo', 'rebench/denoise.py',
+  "    no_turbo = _set_no_turbo(False)", "    no_turbo = _set_no_turbo(True)"),
+ ('C20', 'd02-restore-paranoid-2', 'rebench/denoise.py',
+  'perf_file.write("3\\n")', 'perf_file.write("2\\n")'),
+ ('C20', 'd03-restore-governor-performance', 'rebench/denoise.py',
+  "    governor = _set_scaling_governor(SCALING_GOVERNOR_POWERSAVE, num_cores)", "    governor = _set_scaling_governor(SCALING_GOVERNOR_PERFORMANCE, num_cores)"),
+ ('C20', 'd04-restore-never-resets-shield', 'rebench/denoise.py',
+  "    shielding = _reset_shielding() if use_shielding else False", "    shielding = False"),
+ ('C20', 'd05-minimize-always-lowers-paranoid', 'rebench/denoise.py',
+  "        if for_profiling:\n            with open(\n                \"/proc/sys/kernel/perf_event_paranoid\"", "        if True:\n            with open(\n                \"/proc/sys/kernel/perf_event_paranoid\""),
+ ('C20', 'd06-restore-skips-sample-rate', 'rebench/denoise.py',
+  '            sample_file.write("50000\\n")', '            pass'),
+ ('C20', 'n15-preserve-env-of-first-run-cached', 'rebench/executor.py',
+  '",".join(env.keys())', '",".join(self.__dict__.setdefault("_first_keys", list(env.keys())))'),
  ('C20', 'n14-num-cores-minus-one', 'rebench/executor.py',
   'cmdline += "--num-cores " + str(num_cores) + " "', 'cmdline += "--num-cores " + str(num_cores - 1) + " "'),
 ]
